@@ -94,7 +94,19 @@ def _map_names(x, vf, pf):
   return x
 
 
-def rename(prog, r, variables=True, predicates=True):
+WORDS = ['Monthly', 'Active', 'Customer', 'Accounts', 'Snapshot', 'For', 'The', 'European', 'Region', 'Including', 'Trials',
+         'Daily', 'Order', 'Lines', 'Joined', 'With', 'Returns', 'And', 'Refunds', 'Per', 'Warehouse']
+
+
+def long_name(r, base, lo, hi):
+  n = r.randint(lo, hi)
+  out = base
+  while len(out) < n:
+    out += r.choice(WORDS)
+  return out[:n]
+
+
+def rename(prog, r, variables=True, predicates=True, long_names=False):
   """(text, {old predicate: new predicate}) with variables and predicates consistently renamed."""
   suffix = r.choice(['q', 'zz', '1x'])   # never produce the reserved prefix x_
   vf = (lambda v: v + suffix) if variables else (lambda v: v)
@@ -102,6 +114,9 @@ def rename(prog, r, variables=True, predicates=True):
   if predicates:
     for d in prog:
       pmap[d['name']] = r.choice(['Rn', 'Ab', 'Xy']) + d['name']
+      if long_names:    # names around the lengths at which aliases are derived differently (63 / 100 characters)
+        lo, hi = r.choice([(40, 60), (64, 99), (64, 99), (90, 99)])   # 100 and more: see c07.long_name_probe
+        pmap[d['name']] = long_name(r, pmap[d['name']] + 'Of', lo, hi)
   pf = lambda p: pmap.get(p, p)
   lines = ['@Engine("sqlite");']
   for d in prog:
